@@ -124,6 +124,21 @@ func (i *Indexer) Notify(_ context.Context, blk *chain.ExecutedBlock) error {
 // cache.
 // assumes the write lock is held
 func (i *Indexer) insertBlockIntoCache(blk *chain.ExecutedBlock) {
+	if i.lastHeight != math.MaxUint64 && blk.Block.Hght > i.lastHeight+1 {
+		// The heights are not consecutive (e.g. the first block after state sync): more than
+		// one cached block may have left the window, so sweep the cache instead of evicting
+		// only the block at height-blockWindow below.
+		for height, staleBlk := range i.blockHeightToBlock {
+			if height+i.blockWindow > blk.Block.Hght {
+				continue
+			}
+			delete(i.blockIDToHeight, staleBlk.Block.GetID())
+			delete(i.blockHeightToBlock, height)
+			for _, tx := range staleBlk.Block.Txs {
+				delete(i.txCache, tx.GetID())
+			}
+		}
+	}
 	if evictedBlk, ok := i.blockHeightToBlock[blk.Block.Hght-i.blockWindow]; ok {
 		// remove the block from the caches
 		delete(i.blockIDToHeight, evictedBlk.Block.GetID())
